@@ -421,7 +421,7 @@ impl Property for C09 {
                     starts.push(starts.last().unwrap() + n);
                     images.push(img);
                 }
-                let msgs = Msgs { values: values.clone(), initial: values.clone(), post_ops: vec![vec![]; 3], raw: vec![None; 3], use_default: vec![false; 3], images, starts, largest: 1504, has_padding: true };
+                let msgs = Msgs { values: values.clone(), initial: values.clone(), post_ops: vec![vec![]; 3], raw: vec![None; 3], use_default: vec![false; 3], images, starts, largest: 1504, has_padding: true, upper_total: 1520 };
                 let total = msgs.total();
                 for asynchronous in [false, true] {
                     let variant = if asynchronous { "async" } else { "blocking" };
